@@ -276,7 +276,8 @@ def gen_program(rng: random.Random, focus: str, pid: int) -> dict:
             "reassemble": rng.random() < 0.3, "reuse": rng.random() < 0.35,
             "pkind": [[k, v] for k, v in pkind.items()], "psettings": [[k, v] for k, v in pset.items()],
             "geom": geom, "geom_calls": geom_calls, "settings": prog_settings, "exp_settings": settings, "unique_face_labels": unique,
-            "builtin": False, "count": 2, "corner_lists": rng.random() < 0.5 or pid % 3 == 0, "corners_first": rng.random() < 0.5 or pid % 6 == 0}
+            "builtin": False, "count": 2, "corner_lists": rng.random() < 0.5 or pid % 3 == 0, "corners_first": rng.random() < 0.5 or pid % 6 == 0,
+            "late_reassemble": (None, None, "backport", None, "clear", None)[pid % 6]}
 
 
 def reuse_in_second_mesh(prog: dict, lofts: list, geo: Geometry, ctx: Ctx, rng: random.Random) -> Optional[dict]:
